@@ -69,7 +69,8 @@ def run_case(case):
     if case["centre"] != 0 or len(set(ax)) > 1:
         rep.nontrivial += 1
     try:
-        obj = getattr(S, cls)(*ax, cen)
+        # centre 0 is the origin: those cases use the documented default (no centre argument)
+        obj = getattr(S, cls)(*ax) if case["centre"] == 0 and all(x == 0 for x in cen) else getattr(S, cls)(*ax, cen)
     except Exception as ex:
         rep.violation("construct", cls, "__init__", "raised:" + type(ex).__name__, case, repr(ex))
         return rep
